@@ -2,7 +2,7 @@
 From Coq Require Import List ZArith NArith Bool Lia.
 From EDS Require Import Model.Objects Model.Fitness Model.PodSpec Model.Backoff Model.Filter Model.Default
      Model.Limits Model.Rolling Model.Canary Model.ErsReconcile Model.EdsLogic
-     Proofs.Lists Proofs.RollingProofs Proofs.SyncInv.
+     Proofs.Lists Proofs.RollingProofs Proofs.SyncInv Proofs.CanaryProofs.
 Import ListNotations.
 Open Scope Z_scope.
 
@@ -97,13 +97,9 @@ Lemma canary_paused_no_create : forall rs ann oc now cn listed items st0 cp,
   manage_canary_status rs ann oc now cn listed items st0 = Ok cp ->
   cp_paused cp || cp_failed cp = true -> cp_creates cp = [].
 Proof.
-  intros rs ann oc now cn listed items st0 cp H Hp. unfold manage_canary_status in H.
-  destruct (canary_cfg_of oc) as [cfg|]; [|discriminate].
-  destruct (canary_paused ann (Some (r_status rs))) as [paused0 reason0].
-  match type of H with context [if ?c then (false, R_EMPTY) else _] => destruct c end;
-  apply bind_ok in H; destruct H as [l [_ H]]; inversion H; subst cp; clear H; cbn in *;
-  destruct (cl_paused l), (cl_failed l); simpl in *; try discriminate;
-  rewrite ?andb_false_r; reflexivity.
+  intros rs ann oc now cn listed items st0 cp H Hp. apply manage_canary_inv in H. cbv zeta in H.
+  destruct H as [l [conds4 [_ [Hc [_ [Hf [Hpa _]]]]]]]. rewrite Hc. rewrite Hf, Hpa in Hp.
+  destruct (cl_paused l), (cl_failed l); simpl in *; try discriminate; rewrite ?andb_false_r; reflexivity.
 Qed.
 
 (** the loop keeps "not failed => not paused" when the unpause annotation is set *)
@@ -132,25 +128,19 @@ Qed.
 (** A manual unpause lifts the pause unless the canary is failed - also when no canary pod can be
     evaluated (the repaired defect D6). *)
 Theorem canary_unpause_lifts : forall rs ann oc now cn listed items st0 cp,
-  manage_canary_status rs ann oc now cn listed items st0 = Ok cp ->
+  manage_canary_status rs ann oc now cn listed items st0 = Ok cp -> oc <> None ->
   canary_unpaused ann = true -> cp_failed cp = false -> cp_paused cp = false.
 Proof.
-  intros rs ann oc now cn listed items st0 cp H Hu Hf. unfold manage_canary_status in H.
-  destruct (canary_cfg_of oc) as [cfg|]; [|discriminate].
-  destruct (canary_paused ann (Some (r_status rs))) as [paused0 reason0].
-  rewrite Hu in H. cbn [andb] in H.
-  destruct (negb (canary_failed_rs (r_status rs))) eqn:Ef0;
-  apply bind_ok in H; destruct H as [l [Hl H]]; inversion H; subst cp; clear H; cbn in *.
-  - pose proof (loop_unpaused_inv _ _ _ _ _ _ _ Hl) as Hinv.
-    assert (Hi : unpaused_inv l) by (apply Hinv; intros _; reflexivity). apply Hi; assumption.
-  - pose proof (loop_unpaused_inv _ _ _ _ _ _ _ Hl) as Hinv.
-    assert (Hi : unpaused_inv l).
-    { apply Hinv. unfold unpaused_inv; cbn. apply negb_false_iff in Ef0. congruence. }
-    apply Hi; assumption.
+  intros rs ann oc now cn listed items st0 cp H Hoc Hu Hf. apply manage_canary_inv in H. cbv zeta in H.
+  destruct H as [l [conds4 [He [_ [_ [Hfl [Hpa _]]]]]]]. rewrite Hpa. rewrite Hfl in Hf.
+  apply canary_evaluate_inv in He. destruct He as [[Hn _] | [_ [cfg [_ Hl]]]]; [contradiction|].
+  rewrite Hu in Hl. pose proof (loop_unpaused_inv _ _ _ _ _ _ _ Hl) as Hinv.
+  assert (Hi : unpaused_inv l).
+  { apply Hinv. unfold unpaused_inv; cbn. intros Hf0. rewrite Hf0. reflexivity. }
+  apply Hi; assumption.
 Qed.
 
 (** a failed canary stays failed: Canary-Failed true in the status read => failed in the plan *)
-Definition failed_inv (st : cloop) : Prop := cl_failed st = true.
 Lemma step_failed_inv : forall cfg u now sc rc st p st',
   canary_pod_step cfg u now sc rc st p = Ok st' -> cl_failed st = true -> cl_failed st' = true.
 Proof.
@@ -172,12 +162,10 @@ Theorem canary_failed_sticky : forall rs ann oc now cn listed items st0 cp,
   manage_canary_status rs ann oc now cn listed items st0 = Ok cp ->
   canary_failed_rs (r_status rs) = true -> cp_failed cp = true.
 Proof.
-  intros rs ann oc now cn listed items st0 cp H Hf. unfold manage_canary_status in H.
-  destruct (canary_cfg_of oc) as [cfg|]; [|discriminate].
-  destruct (canary_paused ann (Some (r_status rs))) as [paused0 reason0].
-  match type of H with context [if ?c then (false, R_EMPTY) else _] => destruct c end;
-  apply bind_ok in H; destruct H as [l [Hl H]]; inversion H; subst cp; clear H; cbn;
-  eapply loop_failed_inv; try exact Hl; cbn; assumption.
+  intros rs ann oc now cn listed items st0 cp H Hf. apply manage_canary_inv in H. cbv zeta in H.
+  destruct H as [l [conds4 [He [_ [_ [Hfl _]]]]]]. rewrite Hfl.
+  apply canary_evaluate_inv in He. destruct He as [[_ [-> _]] | [_ [cfg [_ Hl]]]]; [exact Hf|].
+  eapply loop_failed_inv; [exact Hl | exact Hf].
 Qed.
 
 (** ** The ExtendedDaemonSet side *)
